@@ -400,3 +400,60 @@ func trueEdgesOf(f *ssa.Function, v ssa.Value) []edge {
 }
 
 func retOperandSSA(ret *ssa.Return, i int) ssa.Value { return retOperand(ret, i) }
+
+// originatesFromCall: v is (a phi over / a helper's return of) the result of a call whose callee
+// name satisfies pred. Follows phis and the returns of transparent callees (bounded).
+func originatesFromCall(v ssa.Value, pred func(string) bool, depth int) bool {
+	seen := map[ssa.Value]bool{}
+	var rec func(v ssa.Value, depth int) bool
+	rec = func(v ssa.Value, depth int) bool {
+		v = stripValue(v)
+		if v == nil || seen[v] || depth > 4 {
+			return false
+		}
+		seen[v] = true
+		switch x := v.(type) {
+		case *ssa.Extract:
+			return rec(x.Tuple, depth)
+		case *ssa.Phi:
+			for _, e := range x.Edges {
+				if rec(e, depth) {
+					return true
+				}
+			}
+		case *ssa.Call:
+			if pred(calleeName(&x.Call)) {
+				return true
+			}
+			if in, ok := v.(ssa.Instruction); ok {
+				if g := transparentCallee(in.Parent(), in); g != nil {
+					for _, ri := range instrsWhereOne(g, isReturn) {
+						ret := ri.(*ssa.Return)
+						for i := range ret.Results {
+							if rec(retOperand(ret, i), depth+1) {
+								return true
+							}
+						}
+					}
+				}
+			}
+		case *ssa.UnOp:
+			if x.Op == token.MUL {
+				if a := rootAlloc(x.X); a != nil {
+					for _, st := range storesInto(a) {
+						if rec(st.Val, depth) {
+							return true
+						}
+					}
+				}
+			}
+		}
+		return false
+	}
+	return rec(v, depth)
+}
+
+// dom: a dominates b — only meaningful (and only true) inside one function.
+func dom(a, b *ssa.BasicBlock) bool {
+	return a != nil && b != nil && a.Parent() == b.Parent() && a.Dominates(b)
+}
